@@ -29,8 +29,8 @@ ASSUMPTIONS = [
 
 
 def plan(tier, seed):
-    n = 50 if tier == "quick" else 1200
-    return [{"name": "inv-%d" % p, "n": n} for p in range(10 if tier == "quick" else 16)]
+    n = 200 if tier == "quick" else 3500
+    return [{"name": "inv-%d" % p, "n": n} for p in range(16)]
 
 
 def check_same(ev, meta):
